@@ -33,12 +33,123 @@ let err_name = function
 let join = Stdlib.String.concat ","
 let or_dash s = if s = "" then "-" else s
 
+
+(* ---- mode "spec": schema tokens (format of harness/cmd/export/tok.go) *)
+let toks = ref [||]
+let pos = ref 0
+let next () = let t = !toks.(!pos) in incr pos; t
+let next_int () = int_of_string (next ())
+let next_str () = hb (next ())
+let next_bool () = next () = "1"
+let next_opt () = match next () with "~" -> None | h -> Some (hb h)
+let times n f = Stdlib.List.init n (fun _ -> ()) |> Stdlib.List.map (fun () -> f ())
+
+let parse_col () =
+  let name = next_str () in
+  let cls = next_int () in
+  let t = next_str () in
+  let null = next_bool () in
+  let d = match next () with
+    | "~" -> None
+    | s -> let v = hb (Stdlib.String.sub s 2 (Stdlib.String.length s - 2)) in
+           if s.[0] = 'L' then Some (DLit v) else Some (DRaw v) in
+  let g = match next () with
+    | "~" -> None
+    | s -> (match Stdlib.String.split_on_char ':' s with
+            | [a; b] -> Some (hb a, hb b)
+            | _ -> failwith "gen") in
+  let c = next_opt () in
+  { c_name = name; c_class = n_of_int cls; c_T = t; c_null = null; c_default = d; c_gen = g; c_comment = c }
+let parse_part () =
+  let seq = next_int () in
+  let desc = next_bool () in
+  let c = next_opt () in
+  let x = next_opt () in
+  { p_seq = n_of_int seq; p_desc = desc; p_col = c; p_expr = x }
+let parse_idx () =
+  let name = next_str () in
+  let u = next_bool () in
+  let np = next_int () in
+  let parts = times np parse_part in
+  let pred = next_opt () in
+  let com = next_opt () in
+  let org = next_opt () in
+  { i_name = name; i_unique = u; i_parts = parts; i_pred = pred; i_comment = com; i_origin = org }
+let parse_tfk () =
+  let sym = next_str () in
+  let nc = next_int () in
+  let cols = times nc next_str in
+  let rt = next_str () in
+  let nr = next_int () in
+  let rc = times nr next_str in
+  let ou = next_str () in
+  let od = next_str () in
+  { f_symbol = sym; f_cols = cols; f_reftable = rt; f_refcols = rc; f_onupdate = ou; f_ondelete = od }
+let parse_table () =
+  let name = next_str () in
+  let wr = next_bool () in
+  let st = next_bool () in
+  let nc = next_int () in
+  let cols = times nc parse_col in
+  let pk = match next () with "~" -> None | "P" -> Some (parse_idx ()) | s -> failwith ("pk " ^ s) in
+  let ni = next_int () in
+  let idxs = times ni parse_idx in
+  let nf = next_int () in
+  let fks = times nf parse_tfk in
+  let nk = next_int () in
+  let chks = times nk (fun () -> let n = next_str () in let e = next_str () in { k_name = n; k_expr = e }) in
+  let na = next_int () in
+  let ai = times na next_str in
+  { x_t = { t_name = name; t_without_rowid = wr; t_strict = st; t_cols = cols; t_pk = pk; t_idx = idxs; t_fks = fks; t_checks = chks };
+    x_autoinc = ai }
+
+let b01 b = if b then "1" else "0"
+let opt = function None -> "~" | Some b -> hex b
+let show_col c =
+  [hex c.c_name; string_of_int (int_of_n c.c_class); hex c.c_T; b01 c.c_null;
+   (match c.c_default with None -> "~" | Some (DLit v) -> "L:" ^ hex v | Some (DRaw v) -> "R:" ^ hex v);
+   (match c.c_gen with None -> "~" | Some (a, b) -> hex a ^ ":" ^ hex b);
+   opt c.c_comment]
+let show_idx i =
+  [hex i.i_name; b01 i.i_unique; string_of_int (Stdlib.List.length i.i_parts)]
+  @ Stdlib.List.concat_map (fun p -> [string_of_int (int_of_n p.p_seq); b01 p.p_desc; opt p.p_col; opt p.p_expr]) i.i_parts
+  @ [opt i.i_pred; opt i.i_comment; opt i.i_origin]
+let show_table x =
+  let t = x.x_t in
+  [hex t.t_name; b01 t.t_without_rowid; b01 t.t_strict; string_of_int (Stdlib.List.length t.t_cols)]
+  @ Stdlib.List.concat_map show_col t.t_cols
+  @ (match t.t_pk with None -> ["~"] | Some i -> "P" :: show_idx i)
+  @ [string_of_int (Stdlib.List.length t.t_idx)] @ Stdlib.List.concat_map show_idx t.t_idx
+  @ [string_of_int (Stdlib.List.length t.t_fks)]
+  @ Stdlib.List.concat_map (fun f ->
+      [hex f.f_symbol; string_of_int (Stdlib.List.length f.f_cols)] @ Stdlib.List.map hex f.f_cols
+      @ [hex f.f_reftable; string_of_int (Stdlib.List.length f.f_refcols)] @ Stdlib.List.map hex f.f_refcols
+      @ [hex f.f_onupdate; hex f.f_ondelete]) t.t_fks
+  @ [string_of_int (Stdlib.List.length t.t_checks)]
+  @ Stdlib.List.concat_map (fun k -> [hex k.k_name; hex k.k_expr]) t.t_checks
+  @ [string_of_int (Stdlib.List.length x.x_autoinc)] @ Stdlib.List.map hex x.x_autoinc
+
+let spec_line (line : Stdlib.String.t) =
+  let parts = Stdlib.String.split_on_char ' ' line in
+  match parts with
+  | id :: rest ->
+    toks := Array.of_list rest; pos := 0;
+    let name = next () in
+    let nt = next_int () in
+    let xs = times nt parse_table in
+    (match hcl_roundtrip xs with
+     | ROk ys -> Printf.printf "%s %s\n" id (Stdlib.String.concat " " (name :: string_of_int (Stdlib.List.length ys) :: Stdlib.List.concat_map show_table ys))
+     | RErr -> Printf.printf "%s err\n" id
+     | RPanic -> Printf.printf "%s panic\n" id
+     | RUnmodelled -> Printf.printf "%s unmodelled\n" id)
+  | [] -> ()
+
 let () =
   let mode = if Array.length Sys.argv > 1 then Sys.argv.(1) else "regex" in
-  ignore mode;
   try
     while true do
       let line = input_line stdin in
+      if mode = "spec" then spec_line line else
       match Stdlib.String.split_on_char ' ' line with
       | [id; text; cols; hidden; pk; partials; fks] ->
         let r = recover (hb text) (hlist cols) (hlist hidden) (hlist pk) (hlist partials)
